@@ -155,6 +155,18 @@ def nested_varying_cases():
     unk = op.reshape(a, sh)
     (r,) = f(unk)
     out.append(B.Case({"a": a, "sh": sh}, {"r": op.reshape(r, op.const(np.array([2], np.int64)))}, False, {"function_on_unknown_rank": True}))
+    # a function whose body depends on the RANK of its argument (an attribute of the body differs), applied at two ranks: were the
+    # second application given the first one's definition, the returned model would not even be valid (Transpose perm of the wrong length)
+    for where in ("main", "sibling-branches"):
+        rev = to_function("ReverseAxes", "verif.nest")(lambda x: [op.transpose(x, perm=list(range(len(x.unwrap_tensor().shape)))[::-1])])
+        a = B.argument(B.Tensor(np.float32, (2, 3)))
+        b = B.argument(B.Tensor(np.float32, (2, 3, 2)))
+        c = B.argument(B.Tensor(np.bool_, ()))
+        if where == "main":
+            outs = {"p": list(rev(a))[0], "q": list(rev(b))[0]}
+        else:
+            outs = {"p": op.if_(c, then_branch=lambda: [op.reduce_sum(list(rev(a))[0], keepdims=0)], else_branch=lambda: [op.reduce_sum(list(rev(b))[0], keepdims=0)])[0]}
+        out.append(B.Case({"a": a, "b": b, "c": c}, outs, False, {"nested_varying": f"rank-dependent-attribute/{where}"}))
     return out
 
 
